@@ -58,7 +58,8 @@ type C11Plan struct {
 	Tasks   [][]COp        `json:"tasks"`
 	// Wire: every client task talks to the shim through its own connection served by yubiagent.ServeAgent on
 	// its own task (as the agent daemon does), instead of calling the shim directly.
-	Wire bool `json:"wire,omitempty"`
+	Wire  bool `json:"wire,omitempty"`
+	Local bool `json:"local,omitempty"` // wire variant: local-mode server instead of remote-mode
 	// Late: which reads of the shim from the underlying agent, made under a deadline the shim armed itself and
 	// finding nothing yet, time out because the agent is slower than that deadline (its reply arrives afterwards).
 	// Code that arms no deadline is not affected.
@@ -75,6 +76,7 @@ var c11Ops = []string{"list", "signers", "sign", "add", "remove", "removeall", "
 
 func genC11(r *sim.Rng, tier string) any {
 	p := &C11Plan{NoUp: r.Bool(0.4), Wire: r.Bool(0.3)}
+	p.Local = p.Wire && r.Bool(0.3)
 	nk := r.Range(2, 4)
 	for i := 0; i < nk; i++ {
 		p.Keys = append(p.Keys, worlds.SKey{Role: fmt.Sprintf("K%d", i), Kind: pick(r, []string{"ed25519", "ed25519", "ecdsa256"})})
@@ -603,7 +605,7 @@ func execC11(t *testing.T, raw json.RawMessage) *sim.Outcome {
 			return
 		}
 		armFaults(peer, p.Faults)
-		yubi := yubiagent.VerifNewServer(shim, "", true)
+		yubi := yubiagent.VerifNewServer(shim, "/nonexistent/yubico-piv-tool", !p.Local)
 		for ti := range p.Tasks {
 			ti := ti
 			if !p.Wire {
